@@ -549,9 +549,10 @@ pub fn plan_run(seed: u64, thorough: bool, run: u64, corpus: &[(String, Vec<u8>)
             }
         }
     }
-    let mut images: Vec<Vec<Corrupt>> = Vec::new();
+    // image 0 is the undamaged file: "for every buffer that parses" includes the valid ones
+    let mut images: Vec<Vec<Corrupt>> = vec![Vec::new()];
     if !thorough {
-        images = enumerate_field_sets(&file);
+        images.extend(enumerate_field_sets(&file));
         images.extend(enumerate_field_pairs(&file));
         // a few seeded multi-kind images as well
         let all: Vec<u8> = (0..10).collect();
